@@ -826,6 +826,7 @@ func (p *Parser) parseMapExpression() (Node, error) {
 
 	// Parse the map key-value pairs
 	items := make(map[Node]Node)
+	var order []Node // keys in source order: a later pair with an equal key wins, as written
 
 	// Check if there are any items
 	if p.tokenIndex < len(p.tokens) &&
@@ -855,6 +856,7 @@ func (p *Parser) parseMapExpression() (Node, error) {
 
 			// Add key-value pair to map
 			items[keyExpr] = valueExpr
+			order = append(order, keyExpr)
 
 			// Check for comma separator between items
 			if p.tokenIndex < len(p.tokens) &&
@@ -884,6 +886,7 @@ func (p *Parser) parseMapExpression() (Node, error) {
 			line:     line,
 		},
 		items: items,
+		order: order,
 	}, nil
 }
 
